@@ -2,7 +2,9 @@ package props
 
 import (
 	"fmt"
+	"runtime"
 	"sort"
+	"time"
 
 	"github.com/go-task/task/v3/zverif/vlab"
 )
@@ -126,6 +128,43 @@ func c18Units(tier string) []*Unit {
 		sc.Name = e.name
 		us = append(us, &Unit{Name: e.name, Sc: sc, Bound: bound, Prune: true, Check: c18Check, Weight: maxW, NoConfirm: true})
 	}
-	_ = fmt.Sprint
+	// Supplement (the property's own quantifier speaks of free-running schedules under varying
+	// GOMAXPROCS): the same bodies with real goroutines and real primitives under the race
+	// detector. This is sampling and decides nothing by its silence; a report is a report.
+	for _, e := range es {
+		e := e
+		us = append(us, &Unit{Name: "free-running/" + e.name, Weight: 2, Custom: func(u *Unit, dir string, deadline time.Time) *vlab.UnitResult {
+			res := &vlab.UnitResult{SigCounts: map[string]int{}, Extra: map[string]any{}}
+			e.sc.Materialise(dir)
+			iters := 6
+			if tier == "thorough" {
+				iters = 40
+			}
+			n := 0
+			defer runtime.GOMAXPROCS(runtime.GOMAXPROCS(0))
+			for _, procs := range []int{1, 2, 4, 8} {
+				runtime.GOMAXPROCS(procs)
+				for i := 0; i < iters; i++ {
+					if e.sc.UsesFS {
+						e.sc.ResetFS(dir)
+					}
+					x := &vlab.Exec{Aux: map[string]string{}}
+					e.sc.Body(dir, x, &vlab.Probe{}, &vlab.RawWriter{})()
+					n++
+					for _, r := range vlab.CollectRaces() {
+						v := vlab.V("C18", "race", r.Sig, "ThreadSanitizer report in a free-running execution (GOMAXPROCS="+fmt.Sprint(procs)+"):\n"+r.Text)
+						v.Scenario = u.Name
+						res.SigCounts[v.Sig]++
+						if res.SigCounts[v.Sig] == 1 {
+							res.Violations = append(res.Violations, v)
+						}
+					}
+				}
+			}
+			res.Extra["samples"] = []any{map[string]any{"scenario": e.name, "free_running_executions": n, "gomaxprocs": []int{1, 2, 4, 8}}}
+			res.Stats = vlab.Stats{Scenario: u.Name, Execs: n, States: 1, Transitions: n, Outcomes: 1, Exhaustive: false, Note: "free-running supplement: sampling, not exhaustive by nature"}
+			return res
+		}})
+	}
 	return us
 }
